@@ -326,7 +326,11 @@ fn expand_enum(
     }
 
     let (bounds, match_arms) = e.variants.iter().try_fold(
-        (Vec::new(), TokenStream::new()),
+        (
+            // Bounds specified on the enum itself.
+            container_attrs.common.bounds.0.iter().cloned().collect::<Vec<_>>(),
+            TokenStream::new(),
+        ),
         |(mut bounds, mut arms), variant| {
             let mut attrs = ContainerAttributes::parse_attrs(&variant.attrs, attr_name)?
                 .map(Spanning::into_inner)
@@ -599,6 +603,7 @@ impl Expansion<'_> {
                         Some(parse_quote! { #ty: derive_more::core::fmt::#trait_ident })
                     }));
                 }
+                bounds.extend(self.attrs.common.bounds.0.clone());
                 has_shared_attr
             }
         };
